@@ -124,6 +124,52 @@ ENV_FORMS = {
 }
 VERBATIM_ENV_FORMS = ("litraw", "litat")
 
+# ---------------------------------------------------------------- part C: words around keywords
+# `and` / `or` between words are chain operators, and the lexer has special cases for Python
+# keywords; a WORD that merely contains one (-or, --and, a-or, or-a, aand, ora, x.or, or=1, for,
+# import1 ...) is an ordinary argument.  A value of this part is a KW tuple of tokens, one of them
+# a keyword; its text is the concatenation.
+KEYWORDS = ("and", "or", "not", "in", "is", "if", "else", "for", "import")
+KDECOR = ("-", "a", "1", ".", "/", "=")
+KTOK = KEYWORDS + KDECOR
+# three-token shapes that the quick tier adds to all words of <= 2 tokens (K = the keyword)
+KSHAPES3 = (("-", "-", "K"), ("a", "-", "K"), ("K", "-", "a"), ("-", "K", "-"), ("a", ".", "K"), ("a", "/", "K"), ("K", "=", "1"))
+NEXT = "<NEXT-COMMAND>"  # separates the argv of two commands in the chain positions
+# chain positions: the argument directly before / after a REAL operator; two commands must run
+CHAINPOS = ("befand", "aftand", "befamp", "aftamp")
+KW_POSITIONS = ("mid", "first", "last") + CHAINPOS
+KW_FORMS_QUICK = ("plain", "sq", "dq", "raw", "f", "tsq", "at", "atlist", "gluepre", "gluesuf", "macro", "macroarg")
+
+
+class KW(tuple):
+    """A part-C value: tuple of KTOK tokens (a tuple subclass so that it is told from part B)."""
+
+    __slots__ = ()
+
+
+def _text(v):
+    return "".join(v) if isinstance(v, KW) else v
+
+
+def enumerate_keyword_words(thorough):
+    """Every word of <= 2 (thorough: 3) tokens over {K} + KDECOR that contains the keyword K, for
+    every K in KEYWORDS; the quick tier adds the KSHAPES3 three-token shapes."""
+    vals = []
+    for k in KEYWORDS:
+        toks = (k,) + KDECOR
+        seen = set()
+        for n in range(1, (3 if thorough else 2) + 1):
+            for tup in itertools.product(toks, repeat=n):
+                if k in tup:
+                    seen.add(tup)
+                    vals.append(KW(tup))
+        if not thorough:
+            for shape in KSHAPES3:
+                tup = tuple(k if t == "K" else t for t in shape)
+                if tup not in seen:
+                    vals.append(KW(tup))
+    return vals
+
 
 def char_class(ch):
     if ch in CLASS:
@@ -136,6 +182,8 @@ def char_class(ch):
 
 
 def classes_of(v):
+    if isinstance(v, KW):  # part C: keyword tokens by name, decorations by character class
+        return "+".join("kw_" + t if t in KEYWORDS else char_class(t) for t in v) if v else "empty"
     if isinstance(v, tuple):  # part B: a tuple of VTOKENS
         return "+".join(VCLASS[t] for t in v) if v else "empty"
     return "+".join(char_class(c) for c in v) if v else "empty"
@@ -146,11 +194,13 @@ def _subsequences(s):
     for r in range(len(s) + 1):
         for idx in itertools.combinations(range(len(s)), r):
             sub = [s[i] for i in idx]
-            out.add(tuple(sub) if isinstance(s, tuple) else "".join(sub))
+            out.add(type(s)(sub) if isinstance(s, tuple) else "".join(sub))
     return out
 
 
 def _order_key(v):
+    if isinstance(v, KW):
+        return (len(v), [KTOK.index(t) for t in v])
     if isinstance(v, tuple):
         return (len(v), [VTOKENS.index(t) for t in v])
     return (len(v), [ALPHABET.index(c) if c in ALPHABET else 1000 + ord(c) for c in v])
@@ -310,7 +360,7 @@ def render_line(form, pos, v, cmd):
             inner = {"macro": f"{cmd}! {v}", "macroarg": f"{cmd} L ! {v}", "macrotail": f"{cmd} L ! {v} > out.txt"}[form]
             return f"y = $({inner})\n"
         if pos != "mid":
-            return None
+            return None  # (incl. the chain positions: a macro swallows the rest of the line)
         if form == "macro":
             return f"{cmd}! {v}\n"
         if form == "macroarg":
@@ -329,6 +379,14 @@ def render_line(form, pos, v, cmd):
         return f"{cmd} L {a} > out.txt\n"
     if pos == "capt":
         return f"y = $({cmd} L {a} R)\n"
+    if pos == "befand":
+        return f"{cmd} L {a} and {cmd} R\n"
+    if pos == "aftand":
+        return f"{cmd} L and {cmd} {a} R\n"
+    if pos == "befamp":
+        return f"{cmd} L {a} && {cmd} R\n"
+    if pos == "aftamp":
+        return f"{cmd} L && {cmd} {a} R\n"
     raise AssertionError(pos)
 
 
@@ -504,6 +562,10 @@ def expected_argv(form, pos, v, expand_env, env, home):
         return [{"L"}, {"M"}] + mid
     if pos == "redir":
         return [{"L"}] + mid
+    if pos in ("befand", "befamp"):
+        return [{"L"}] + mid + [{NEXT}, {"R"}]
+    if pos in ("aftand", "aftamp"):
+        return [{"L"}, {NEXT}] + mid + [{"R"}]
     raise AssertionError(pos)
 
 
@@ -577,7 +639,7 @@ def _init_worker():
     argv_file = os.path.join(d, "argv.out")
     script = os.path.join(bindir, "recc")
     with open(script, "w") as f:
-        f.write("#!/bin/sh\nprintf '%s\\0' \"$#\" \"$@\" > '" + argv_file + "'\n")
+        f.write("#!/bin/sh\nprintf '%s\\0' \"$#\" \"$@\" >> '" + argv_file + "'\n")  # one record per run
     os.chmod(script, 0o755)
     os.chdir(cwd)
     os.environ["HOME"] = home
@@ -596,7 +658,8 @@ def _norm(args):
 
 
 def run_source(src, path, expand_env, xval=None, qval=None, alarm_s=20.0):
-    """Execute one source line on one delivery path; returns the argv list or a failure tuple."""
+    """Execute one source line on one delivery path; returns a failure tuple or the list of the
+    argv lists of every recorder invocation (normally one)."""
     xsh = _W["xsh"]
     if xsh.env.get("EXPAND_ENV_VARS") is not expand_env:  # (an unconditional write would invalidate
         xsh.env["EXPAND_ENV_VARS"] = expand_env  # the detyped-environment cache before every child)
@@ -633,24 +696,31 @@ def run_source(src, path, expand_env, xval=None, qval=None, alarm_s=20.0):
         except FileNotFoundError:
             return ("norun", "child did not run", err.getvalue()[-160:])
         parts = raw.split(b"\0")[:-1]
-        n = int(parts[0])
-        args = [p.decode("utf-8", "surrogateescape") for p in parts[1:]]
-        if n != len(args):
-            raise common.ToolError(f"helper script output inconsistent: {raw!r}")
-        return args
-    if len(_REC) != 1:
-        return ("norun", f"alias ran {len(_REC)} times", err.getvalue()[-160:])
-    return _norm(_REC[0])
+        recs = []
+        i = 0
+        while i < len(parts):
+            n = int(parts[i])
+            args = [p.decode("utf-8", "surrogateescape") for p in parts[i + 1 : i + 1 + n]]
+            if n != len(args):
+                raise common.ToolError(f"helper script output inconsistent: {raw!r}")
+            recs.append(args)
+            i += n + 1
+        return recs
+    if not _REC:
+        return ("norun", "alias did not run", err.getvalue()[-160:])
+    return [_norm(r) for r in _REC]
 
 
 def run_case(form, pos, e1, v, paths):
     """-> None when skipped, else dict(src, exp, obs{path: argv|failure})."""
+    v = _text(v)
     first = render_line(form, pos, v, "CMD")
     if first is None:
         return None
     exp = expected_argv(form, pos, v, e1, _W["env"], _W["home"])
     obs = {}
     is_env = form in ENV_FORMS
+    ncmds = 2 if pos in CHAINPOS else 1  # commands WRITTEN on the line: exactly that many must run
     for p in paths:
         src = render_line(form, pos, v, CMD[p])
         # part B never waits on anything: 3 s is a hang (1 s once this worker has seen one, so that
@@ -659,7 +729,15 @@ def run_case(form, pos, e1, v, paths):
         o = run_source(src, p, e1, field_value(form, v), "".join(v) if is_env else None, alarm_s)
         if p in ALIASED and isinstance(o, list):
             # the alias's own fixed argument comes first; what follows is the user's argv
-            o = o[1:] if o[:1] == [FIX] else ("noprefix", repr(o)[:200])
+            o = [r[1:] for r in o] if all(r[:1] == [FIX] for r in o) else ("noprefix", repr(o)[:200])
+        if isinstance(o, list):
+            if len(o) != ncmds:
+                o = ("extra-command" if len(o) > ncmds else "missing-command", f"{len(o)} recorder runs for {ncmds} written command(s)", repr(o)[:200])
+            else:
+                flat = list(o[0])
+                for r in o[1:]:
+                    flat += [NEXT] + r
+                o = flat
         obs[p] = o
         if isinstance(o, tuple) and o[0] == "hang":
             _W["hung"] = True
@@ -674,6 +752,23 @@ def _plan_for(v, thorough):
     """Which (form, position, $EXPAND_ENV_VARS, delivery paths) are executed for value v.  A case
     that fails on the paths listed here is re-run on the remaining paths (see _check_value), so
     every reported failure carries the observation of all delivery paths."""
+    if isinstance(v, KW):  # part C: a word built around a keyword
+        text = "".join(v)
+        small = len(v) <= 2
+        plan = []
+        for form in FORMS if thorough else KW_FORMS_QUICK:
+            if form == "plain":
+                if text in ("and", "or"):
+                    continue  # the bare word IS the documented operator
+                plan.append((form, "mid", True, PATHS if small else ("u",)))
+                for pos in KW_POSITIONS[1:]:
+                    plan.append((form, pos, True, ("u", "c") if (thorough and small) else ("u",)))
+            elif small or thorough:
+                plan.append((form, "mid", True, ("u",)))
+                if thorough and form not in MACRO_FORMS:
+                    plan.append((form, "befand", True, ("u",)))
+                    plan.append((form, "aftamp", True, ("u",)))
+        return plan
     if isinstance(v, tuple):  # part B: value of a variable
         # (unthreaded alias first: a hang is recorded on the first path only, keep that the same one)
         return [(form, "mid", True, ("u", "lu", "t", "c", "su", "lc") if len(v) == 1 else ("u", "lu")) for form in ENV_FORMS]
@@ -724,15 +819,15 @@ def _check_value(v):
     fails = []
     evals = cases = 0
     by_path = dict.fromkeys(PATHS, 0)
-    by_kind = {"mid": 0, "E0": 0, "pos": 0, "env": 0}
+    by_kind = {"mid": 0, "E0": 0, "pos": 0, "env": 0, "kw": 0}
     for form, pos, e1, paths in _plan_for(v, _THOROUGH):
         if pos == "mid" and e1:
-            self_check(form, v)
+            self_check(form, _text(v))
         r = run_case(form, pos, e1, v, paths)
         if r is None:
             continue
         cases += 1
-        by_kind["env" if form in ENV_FORMS else "E0" if not e1 else ("mid" if pos == "mid" else "pos")] += 1
+        by_kind["kw" if isinstance(v, KW) else "env" if form in ENV_FORMS else "E0" if not e1 else ("mid" if pos == "mid" else "pos")] += 1
         exp = r["exp"]
         hung = any(isinstance(o, tuple) and o[0] == "hang" for o in r["obs"].values())
         if len(paths) < len(PATHS) and not hung and any(not matches(o, exp) for o in r["obs"].values()):
@@ -814,8 +909,10 @@ def run(ctx):
         _PROBE_SET |= _subsequences(p)
     env_values = enumerate_env_values(maxlen)
     ctx.log(f"{len(values)} values (len<={maxlen} over {len(ALPHABET)} characters + probe closure) x {len(FORMS)} forms; {len(env_values)} variable values (<={maxlen} of {len(VTOKENS)} tokens) x {len(ENV_FORMS)} uses")
+    kw_values = enumerate_keyword_words(ctx.thorough)
+    ctx.log(f"{len(kw_values)} words around the keywords {list(KEYWORDS)}")
     n_a = len(values)
-    values = values + env_values
+    values = values + env_values + kw_values
     res = common.pmap(_check_value, values, ctx.jobs, chunk=1, init=_init_worker, seed=ctx.seed)
     fails = [f for r in res for f in r["fails"]]
     evals = sum(r["evals"] for r in res)
@@ -832,7 +929,7 @@ def run(ctx):
         ctx.violation(
             key=key,
             clause="argv delivered == argv written",
-            case={"form": f["form"], "pos": f["pos"], "expand_env_vars": f["e1"], "value": list(f["v"]) if isinstance(f["v"], tuple) else f["v"], "paths": f["ran"], "failing_paths": f["bad"], "source": f["src"], "minimal_value": list(minimal) if isinstance(minimal, tuple) else minimal},
+            case={"form": f["form"], "pos": f["pos"], "expand_env_vars": f["e1"], "value": list(f["v"]) if isinstance(f["v"], tuple) else f["v"], "value_kind": "kw" if isinstance(f["v"], KW) else "env" if isinstance(f["v"], tuple) else "str", "paths": f["ran"], "failing_paths": f["bad"], "source": f["src"], "minimal_value": list(minimal) if isinstance(minimal, tuple) else minimal},
             observed=f["obs"],
             expected=f["exp"],
             note="expected = list of arguments, each with the set of values the documentation allows",
@@ -846,7 +943,10 @@ def run(ctx):
     for form, v in (("envdq", ("$W", "$")), ("envgluesuf", ("*",))):
         r = run_case(form, "mid", True, v, ("u", "lu"))
         ctx.sample({"form": form, "Q": "".join(v), "W": ENV_W, "source": r["src"].replace("CMD", "recu"), "observed_direct": _scrub(r["obs"]["u"]), "observed_through_list_alias": _scrub(r["obs"]["lu"]), "expected_allowed_per_argument": exp_json(r["exp"])})
-    for v in common.pick_samples(pool, ctx.seed, 8):
+    for pos, v in (("mid", KW(("-", "or"))), ("befand", KW(("a", "-", "and")))):
+        r = run_case("plain", pos, True, v, ("u", "c"))
+        ctx.sample({"form": "plain", "position": pos, "word": "".join(v), "source": r["src"].replace("CMD", "recu"), "observed_alias": r["obs"]["u"], "observed_child": r["obs"]["c"], "expected_allowed_per_argument": exp_json(r["exp"])})
+    for v in common.pick_samples(pool, ctx.seed, 6):
         for j in range(len(show)):
             form = show[(k + j) % len(show)]
             r = run_case(form, "mid", True, v, ("u",))
@@ -855,12 +955,13 @@ def run(ctx):
                 k += j + 1
                 break
     by_path = {p: sum(r["by_path"][p] for r in res) for p in PATHS}
-    by_kind = {k: sum(r["by_kind"][k] for r in res) for k in ("mid", "E0", "pos", "env")}
+    by_kind = {k: sum(r["by_kind"][k] for r in res) for k in ("mid", "E0", "pos", "env", "kw")}
     if ctx.thorough:
         plan_txt = "length<=2 and probes: middle position on all six delivery paths, $EXPAND_ENV_VARS=False and the 4 other positions on the unthreaded alias (length<=1 and the probes: on the three direct paths, $EXPAND_ENV_VARS=False also through the list alias); length 3: middle position on the unthreaded alias, plus with $EXPAND_ENV_VARS=False and (forms raw, at, atlist, macro) through the list alias when the value contains $ or ~"
     else:
         plan_txt = f"middle position on the unthreaded alias for every value; length<=1 and the probes on all six delivery paths (probes longer than 1: five, without list-alias->child), with $EXPAND_ENV_VARS=False (also through the list alias when the value contains $ or ~), and in the 4 other positions (redirect/capture positions on the three direct paths for length<=1); length-2 values containing $ or ~ also through the list alias and with $EXPAND_ENV_VARS=False; the forms {list(QUICK_TINY_ONLY)} only for length<=1 and the probes' closure"
     plan_txt += f"; part B: variable Q set to every non-empty sequence of <= {maxlen} of the tokens {list(VTOKENS)} ($W='{ENV_W}', files matching the globs present) and used as {[a for a, _, _ in ENV_FORMS.values()]} (%s = the same text written literally, expected verbatim) on the unthreaded alias directly and through the list alias (single tokens: all six paths), expected = the value substituted verbatim exactly once, 3 s alarm per execution"
+    plan_txt += f"; part C: {len(kw_values)} words of <= {3 if ctx.thorough else 2} tokens over a keyword K and {list(KDECOR)} that contain K, for K in {list(KEYWORDS)}" + ("" if ctx.thorough else f" plus the three-token shapes {[''.join(t) for t in KSHAPES3]}") + f", as a plain word (bare and/or excepted) in the positions {list(KW_POSITIONS)} (bef*/aft* = directly before/after a real `and` / `&&`: two commands written, exactly two must run; otherwise exactly one) and in the forms {list(FORMS if ctx.thorough else KW_FORMS_QUICK)}"
     ctx.coverage.update(
         evaluations=evals,
         distinct_nontrivial=nontrivial,
@@ -873,6 +974,8 @@ def run(ctx):
         cases_expand_env_vars_false=by_kind["E0"],
         cases_other_positions=by_kind["pos"],
         cases_variable_values=by_kind["env"],
+        cases_keyword_words=by_kind["kw"],
+        keyword_words=len(kw_values),
         variable_values=len(env_values),
         executions_threaded_alias=by_path["t"],
         executions_unthreaded_alias=by_path["u"],
@@ -899,7 +1002,7 @@ def replay(rec):
         _PROBE_SET |= _subsequences(p)
     tables.ensure_tables()
     _init_worker()
-    value = tuple(case["value"]) if case["form"] in ENV_FORMS else case["value"]
+    value = tuple(case["value"]) if case["form"] in ENV_FORMS else KW(case["value"]) if case.get("value_kind") == "kw" else case["value"]
     r = run_case(case["form"], case["pos"], case["expand_env_vars"], value, tuple(case["paths"]))
     if r is None:
         print("case is skipped by the generator now")
